@@ -8,10 +8,15 @@ IDX = ['MulWithOverflow(%s, 4).0' % I8] + ['AddWithOverflow(MulWithOverflow(%s, 
 
 
 def rounds(var, f, key):
+    """the four unrolled rounds of one iteration; every operand carries its memory version: word r is read before it is
+    rewritten (#{E|[r]}: the initial value or the previous iteration's store), words already rewritten in this iteration
+    are read after their store (#{[a]})"""
+    def rd(a, r):
+        return '%s[%d]#{%s[%d]}' % (var, a, '' if a < r else 'E|', a)
     out = []
     for r in range(4):
         a, b, c = [(r + 1 + k) % 4 for k in range(3)]
-        out.append((str(r), 'BitXor(%s[%d], %s(BitXor(BitXor(BitXor(%s[%d], %s[%d]), %s[%d]), %s)))' % (var, r, f, var, a, var, b, var, c, key(r))))
+        out.append((str(r), 'BitXor(%s, %s(BitXor(BitXor(BitXor(%s, %s), %s), %s)))' % (rd(r, r), f, rd(a, r), rd(b, r), rd(c, r), key(r))))
     return out
 
 
@@ -86,7 +91,7 @@ def block_fn(cx, name, keyidx, what):
     cfs = []
     for b in FR.calls_of(fn, 'copy_from_slice'):
         cfs.append((FR.arg_canon(fn, P, cn, b, 0), I.shorten_vars(FR.arg_canon(fn, P, cn, b, 1))))
-    want = [('index_mut(repeat{0}, Range::Range{%d, %d})' % (4 * k, 4 * k + 4), 'to_be_bytes:u32(x[%d])' % (3 - k)) for k in range(4)]
+    want = [('index_mut(repeat{0}, Range::Range{%d, %d})' % (4 * k, 4 * k + 4), 'to_be_bytes:u32(x[%d]#{E|[%d]})' % (3 - k, 3 - k)) for k in range(4)]
     cx.add('I-SM4', name + '/reverse-out', cfs == want, 'output = (X35, X34, X33, X32) big-endian (reverse transform R)', fn.loc(), {'got': cfs})
     nl = I.find_loop(fn, P, cn, 'Range::Range{0, 8}')
     cx.add('I-SM4', name + '/trip', nl is not None, 'the round loop runs 8 times (32 rounds)', fn.loc())
@@ -148,7 +153,7 @@ def run(cx):
         want = rounds('k', 't_prime', lambda r: 'CK[%s]' % IDX[r])
         cx.add('I-SM4', 'new/schedule', st == want, "key schedule: K_{i+4} = K_i ^ T'(K_{i+1} ^ K_{i+2} ^ K_{i+3} ^ CK_i)", fn.loc(), {'got': st})
         rk = [(I.shorten_vars(a), I.shorten_vars(b)) for a, b in I.stores(fn, F, 'rk')]
-        cx.add('I-SM4', 'new/rk', rk == [(IDX[r], 'k[%d]' % r) for r in range(4)], 'rk_i = K_{i+4}, stored in round order', fn.loc(), {'got': rk})
+        cx.add('I-SM4', 'new/rk', rk == [(IDX[r], 'k[%d]#{[%d]}' % (r, r)) for r in range(4)], 'rk_i = K_{i+4}, stored in round order', fn.loc(), {'got': rk})
         init = [cn.c(norm(P.rvalue(s_['rv'], b, i, 0))) for b, i, s_ in fn.stmts() if s_['k'] == 'assign' and fn.locals[s_['lhs']['l']].get('name') == 'k' and not s_['lhs']['p']]
         mk = words('k')
         cx.add('I-SM4', 'new/fk', init == ['array{%s}' % ', '.join('BitXor(%s[%d], FK[%d])' % (mk, k, k) for k in range(4))], '(K0..K3) = MK ^ FK with MK read big-endian', fn.loc())
